@@ -14,6 +14,20 @@ import sys
 import threading
 
 
+def ensure_stub(sdir):
+    """The HuggingFace `tokenizers` package is not available offline: the two names the pre-tokenizer binding needs are
+    provided by a stand-in (custom(obj) returns obj, whose __call__(index, normalized_string) HuggingFace would invoke)."""
+    stub = os.path.join(sdir, "_stub", "tokenizers")
+    os.makedirs(stub, exist_ok=True)
+    with open(os.path.join(stub, "__init__.py"), "w") as f:
+        f.write("class NormalizedString:\n    def __init__(self, s):\n        self.s = s\n    def __str__(self):\n        return self.s\n"
+                "    def slice(self, sl):\n        return NormalizedString(self.s[sl])\n")
+    with open(os.path.join(stub, "pre_tokenizers.py"), "w") as f:
+        f.write("class PreTokenizer:\n    @staticmethod\n    def custom(obj):\n        return obj\n")
+    if os.path.join(sdir, "_stub") not in sys.path:
+        sys.path.insert(0, os.path.join(sdir, "_stub"))
+
+
 def main():
     sdir, pkg, seed = sys.argv[1], sys.argv[2], int(sys.argv[3])
     n_threads = int(sys.argv[4]) if len(sys.argv) > 4 else 0
@@ -147,7 +161,7 @@ def main():
                 if wi.length() != ew["head_word_length"]:
                     mismatch("field", "morpheme %d get_word_info().length()=%r, head_word_length %r" % (i, wi.length(), ew["head_word_length"]), {"text": text, "mode": mode})
                 if len(m) != e["end"] - e["begin"] or str(m) != v["surface"]:
-                    mismatch("field", "morpheme %d: len()=%r str()=%r for code points %d..%d, surface %r" % (i, len(m), str(m), e["begin"], e["end"], v["surface"]), {"text": text, "mode": mode})
+                    mismatch("len", "morpheme %d: len()=%r str()=%r for code points %d..%d, surface %r" % (i, len(m), str(m), e["begin"], e["end"], v["surface"]), {"text": text, "mode": mode})
             except (KeyboardInterrupt, SystemExit):
                 raise
             except BaseException as ex:  # noqa
@@ -237,6 +251,50 @@ def main():
                 raise
             except BaseException:  # noqa
                 out["python_exceptions"] += 1
+
+    # ---- the pre-tokenizer with a handler: the morphemes it is handed carry the requested fields, also with a projection
+    out["pretokenizer_field_checks"] = 0
+    try:
+        ensure_stub(sdir)
+        from tokenizers import NormalizedString
+        need = {"surface", "pos", "normalized_form"} if cfg.get("pathRewritePlugin") else set()
+        seen = []
+
+        def fhandler(index, sentence, morphemes):
+            seen.append([(m.raw_surface(), m.reading_form(), m.normalized_form(), list(m.synonym_group_ids()), m.part_of_speech_id()) for m in morphemes])
+            return [NormalizedString(m.raw_surface()) for m in morphemes]
+
+        combos = [(None, None), ({"reading_form", "synonym_group_id", "pos", "normalized_form"}, "reading"), (None, "normalized"), ({"reading_form", "normalized_form", "pos", "synonym_group_id"}, None),
+                  ({"reading_form", "normalized_form", "pos", "synonym_group_id"}, "dictionary")]
+        for fields, proj in combos:
+            kw = {"handler": fhandler}
+            if fields is not None:
+                kw["fields"] = set(fields) | need
+            if proj is not None:
+                kw["projection"] = proj
+            pt = d.pre_tokenizer(SplitMode.C, **kw)
+            for case in cases[:12]:
+                if case.get("kind") == "lookup" or case["expected"] is None or case["mode"] != "C" or not case["text"]:
+                    continue
+                del seen[:]
+                try:
+                    pt(0, NormalizedString(case["text"]))
+                except (KeyboardInterrupt, SystemExit):
+                    raise
+                except BaseException:  # noqa
+                    out["python_exceptions"] += 1
+                    continue
+                if not seen:
+                    continue
+                want = [(e["raw_surface"], e["reading_form"], e["normalized_form"], e["synonym_group_ids"], e["pos_id"]) for e in case["expected"]]
+                out["pretokenizer_field_checks"] += 1
+                if seen[0] != want:
+                    k = next((i for i, (a, b) in enumerate(zip(seen[0], want)) if a != b), min(len(seen[0]), len(want)))
+                    mismatch("field", "pre_tokenizer(fields=%r, projection=%r, handler=...): the handler's morpheme %d is %r, the library's %r" % (sorted(fields) if fields else None, proj, k, seen[0][k:k + 1], want[k:k + 1]), {"text": case["text"]})
+    except (KeyboardInterrupt, SystemExit):
+        raise
+    except BaseException as ex:  # noqa
+        out["pretokenizer_fields_setup_error"] = repr(ex)
 
     # ---- dictionary building through the Python entry points: same bytes as the library's own compiler
     out["py_builds"] = 0
@@ -437,18 +495,58 @@ def main():
         for e in perrors[:5]:
             mismatch("thread", e, {})
 
+        # one thread analyses a long text into a list again and again, another thread reads that list meanwhile: the
+        # reader sees a complete result of some call (the analysis itself runs without the interpreter lock)
+        shared = MorphemeList.empty(d)
+        long_text = "".join(texts)[:6000] * 4
+        stok = d.create(mode=SplitMode.C)
+        sref = None
+        try:
+            sref = " ".join(m.raw_surface() for m in stok.tokenize(long_text))
+        except (KeyboardInterrupt, SystemExit):
+            raise
+        except BaseException:  # noqa
+            sref = None
+        serr = []
+        stop = []
+
+        def writer():
+            for _ in range(12):
+                try:
+                    stok.tokenize(long_text, out=shared)
+                except (KeyboardInterrupt, SystemExit):
+                    raise
+                except BaseException as ex:  # noqa
+                    serr.append("tokenize(long text, out=L) raised %r while another thread reads L" % (ex,))
+                    break
+            stop.append(1)
+
+        def reader():
+            while not stop:
+                try:
+                    n = len(shared)
+                    txt = str(shared)
+                    if n and txt != sref:
+                        serr.append("a reader of L saw %d morphemes that are not the result of the call" % n)
+                        return
+                    out["thread_results"] += 1
+                except (KeyboardInterrupt, SystemExit):
+                    raise
+                except BaseException as ex:  # noqa
+                    serr.append("reading L (len / str) while another thread analyses into it raised %r" % (ex,))
+                    return
+
+        if sref is not None:
+            tw, tr = threading.Thread(target=writer), threading.Thread(target=reader)
+            tw.start(); tr.start(); tw.join(); tr.join()
+            for e in serr[:2]:
+                mismatch("thread", e, {})
+
         # the HuggingFace pre-tokenizer binding shares one object between threads; the `tokenizers` package is not
         # available offline, so the two names the binding needs are provided by a stand-in (custom(obj) returns obj,
         # whose __call__(index, normalized_string) HuggingFace would invoke)
         try:
-            stub = os.path.join(sdir, "_stub", "tokenizers")
-            os.makedirs(stub, exist_ok=True)
-            with open(os.path.join(stub, "__init__.py"), "w") as f:
-                f.write("class NormalizedString:\n    def __init__(self, s):\n        self.s = s\n    def __str__(self):\n        return self.s\n"
-                        "    def slice(self, sl):\n        return NormalizedString(self.s[sl])\n")
-            with open(os.path.join(stub, "pre_tokenizers.py"), "w") as f:
-                f.write("class PreTokenizer:\n    @staticmethod\n    def custom(obj):\n        return obj\n")
-            sys.path.insert(0, os.path.join(sdir, "_stub"))
+            ensure_stub(sdir)
             from tokenizers import NormalizedString
             sys.setswitchinterval(1e-5)
             ptexts = [t for t in texts if t][:12] or ["あ"]
